@@ -36,7 +36,7 @@ def main():
             print(name, "PATCH DOES NOT APPLY")
             continue
         entry = {"property": prop, "applies": True, "checks": {}}
-        for c in [prop] + [x for x in also if x != prop]:
+        for c in [prop] + [x for x in also + meta.get("also_checks", []) if x != prop]:
             r = sh("./vcheck %s --tier quick" % c, VERIF)
             lines = [l for l in r.stdout.splitlines() if l.startswith("  rule ") or l.startswith("INCONCLUSIVE")]
             definite = [l for l in lines if l.startswith("  rule ")]
